@@ -1,2 +1,43 @@
-From Sup Require Import Node NodeSpec.
-Theorem placeholder13 : True. Proof. exact I. Qed.
+(* C13 (node-level part) — isolation is permanent and airtight; handshake fences: property-level theorems
+   (proofs in proofs/NodeInstProofs.v). WFI n: the instance table has no duplicate key and the local instance is
+   not marked ISOLATED (true of every start-up node, preserved by every event). *)
+From Sup Require Import Node NodeSpec NodeInstProofs.
+
+(* An instance ISOLATED before an event is ISOLATED after it, with unchanged counters, and no handshake is
+   requested with it — whatever the event (tick, state publication, handshake result, process information,
+   failure notice claiming to come from it, local tick, request). *)
+Theorem C13_isolated_frozen_step : forall n e n' outs, WFI n -> step n e = Ok (n', outs) ->
+  c13_isolated_frozen (init_ist n) (init_ist n') outs = true.
+Proof. exact isolated_frozen. Qed.
+
+(* The AUTHORIZATION result is taken into account only in CHECKING with a newer timestamp: AUTHORIZED -> CHECKED,
+   NOT_AUTHORIZED / INCONSISTENT -> ISOLATED (STOPPED for the local instance itself), UNKNOWN -> STOPPED;
+   otherwise the state of that instance is unchanged by the event. *)
+Theorem C13_auth_rules : forall n e n' outs, WFI n -> step n e = Ok (n', outs) ->
+  c13_auth (n_me n) e (init_ist n) (init_ist n') = true.
+Proof. exact auth_rules. Qed.
+
+(* Every history is accepted by the C13 checker. *)
+Theorem C13_every_history : forall n evs, WFI n -> nspec_ok fl_c13 (n, evs, run n evs) = true.
+Proof. exact run_c13. Qed.
+
+(* ISOLATED stays until the local Supervisor restarts (no event of the model leaves it). *)
+Theorem C13_isolated_absorbing : forall n evs j, WFI n -> inst_state n j = Some ISOLATED ->
+  forall n', run_state n evs = Ok n' -> inst_state n' j = Some ISOLATED.
+Proof. exact isolated_absorbing. Qed.
+
+Theorem C13_wfi_invariant : forall n e n' outs, WFI n -> step n e = Ok (n', outs) -> WFI n'.
+Proof. exact step_WFI. Qed.
+
+(* Non-vacuity: a NOT_AUTHORIZED handshake isolates peer 3; later ticks, publications, handshake results, failure
+   notices from it and local ticks leave its row (state, remote counter, local tag, checking time) unchanged,
+   and the only handshakes ever requested are the two initial ones. *)
+Theorem C13_example_isolated :
+  map (fun o => match o with NOk x => ist_entry 3 (obs_ist x) | NCrash _ => None end)
+      (skipn 4 (run (ex_node false) ex_iso_hist))
+  = repeat (Some (5, 4, 2, 1011)) 9.
+Proof. exact ex_isolated. Qed.
+
+Theorem C13_example_handshakes :
+  checks_of (run (ex_node false) ex_iso_hist) = [CheckInstance 1; CheckInstance 3].
+Proof. exact ex_isolated_handshakes. Qed.
